@@ -513,7 +513,7 @@ func (r *RecStore) Take() []RecvCall {
 
 // ChunkSize scenarios are run per process: the services under test leave goroutines behind that cannot be
 // stopped (tickers, workers), and recognising a blocked goroutine dumps all goroutines.
-const ChunkSize = 250
+var ChunkSize = 250
 
 // ShouldChunk: a large run in the top-level process.
 func ShouldChunk(scs []kit.Scenario) bool {
